@@ -22,8 +22,12 @@ theorem parseInt_binary : parseInt "0b101" = (5, none) := by decide
 theorem parseInt_zero : parseInt "0" = (0, none) ∧ parseInt "00" = (0, none) := by decide
 theorem parseInt_syntax_errors :
     parseInt "09" = (0, some .syntax) ∧ parseInt "0x" = (0, some .syntax) ∧
-    parseInt "" = (0, some .syntax) ∧ parseInt "1_000" = (0, some .syntax) ∧
+    parseInt "" = (0, some .syntax) ∧
     parseInt "12a" = (0, some .syntax) ∧ parseInt "-" = (0, some .syntax) := by decide
+/-- MODEL ≠ Go on this input: `strconv.ParseInt("1_000", 0, 64)` is 1000 (base 0 allows digit
+separators), the model reports a syntax error. Unreachable from the lexer: `readNumber` /
+`readHexNumber` only collect digits, so an INT token never contains `_` (see `ParserBase.lean`). -/
+theorem parseInt_underscore_model_only : parseInt "1_000" = (0, some .syntax) := by decide
 theorem parseInt_negative : parseInt "-2" = (-2, none) ∧ parseInt "+7" = (7, none) ∧
     parseInt "-0x10" = (-16, none) := by decide
 theorem parseInt_range :
